@@ -257,4 +257,17 @@ AbsOp  == [op EXCEPT !.cleaned = [x \in {op.cleaned[i] : i \in DOMAIN op.cleaned
                                      Cardinality({i \in DOMAIN op.cleaned : op.cleaned[i] = x})]]
 A == INSTANCE SetMap WITH m <- AbsMap, op <- AbsOp
 Refines == A!Spec
+
+(* The same obligation with the contract's action selected by the observed call instead of searched
+   for (each disjunct below is a disjunct of A!Next, so RefinesDirected => Refines; about 30 times
+   cheaper for TLC to evaluate on every transition of the 7-key model). *)
+DirectedStep == LET o == op' IN
+                CASE o.o = "ins"   -> A!Insert(o.k)
+                  [] o.o = "find"  -> A!Find(o.k)
+                  [] o.o = "lower" -> A!Lower(o.k)
+                  [] o.o = "rem"   -> A!Remove(o.k, o.nd)
+                  [] o.o = "clear" -> A!Clear(o.nd)
+                  [] o.o = "iter"  -> A!Iterate
+                  [] OTHER         -> FALSE
+RefinesDirected == A!Init /\ [][DirectedStep]_(A!vars)
 =============================================================================
